@@ -146,9 +146,16 @@ Fixpoint reachb (fuel : nat) (edges : list (string * string)) (a b : string) : b
   match fuel with
   | O => false
   | S f =>
-      existsb (fun e => String.eqb (fst e) a && (String.eqb (snd e) b || reachb f edges (snd e) b)) edges
+      (* `if`, not && / ||: vm_compute is call-by-value and would explore every edge at every level *)
+      existsb (fun e => if String.eqb (fst e) a
+                        then (if String.eqb (snd e) b then true else reachb f edges (snd e) b)
+                        else false) edges
   end.
 
 (* no lock is (transitively) acquired while it is already held *)
 Definition lock_order_ok (edges : list (string * string)) : bool :=
   forallb (fun e => negb (String.eqb (fst e) (snd e)) && negb (reachb (length edges) edges (snd e) (fst e))) edges.
+
+(* the edges that lie on a cycle (printed by the generated check when the obligation fails) *)
+Definition lock_order_violations (edges : list (string * string)) : list (string * string) :=
+  filter (fun e => negb (negb (String.eqb (fst e) (snd e)) && negb (reachb (length edges) edges (snd e) (fst e)))) edges.
